@@ -38,6 +38,21 @@ PadWhere == {"end", "middle"}
 \* P-384 97, P-521 133, and odd ones; payload sizes from (128+16) and not from the parrots' candidate sets
 EchEncLens == {1, 31, 33, 65, 97, 133}
 EchPayLens == {144, 16, 100, 250}
+GreaseShareLens == {2, 7, 32}     \* 1 is what every parrot has; 0 is not a key_share entry (key_exchange<1..2^16-1>)
+GreaseBodyLens == {1, 5}          \* 0 is what every parrot has
+HasGreaseShare(d) == d.kind = "KeyShareExtension" /\ \E q \in DOMAIN d.f.KeyShares : IsGrease16(d.f.KeyShares[q].Group)
+Filler(n) == [q \in 1..n |-> (q * 11) % 256]
+\* crafted captures in which one opaque, sender-chosen length is not the one utls parrots use: (what, length)
+CraftLens == {<<"gks", 2>>, <<"gks", 7>>, <<"gks", 32>>,       \* key_exchange of the GREASE key_share entry
+              <<"gext", 1>>, <<"gext", 5>>,                    \* body of the first GREASE extension
+              <<"gext2", 0>>, <<"gext2", 2>>, <<"gext2", 5>>,  \* body of the second GREASE extension (an empty one becomes BoringSSL's 00: known finding)
+              <<"sid", 0>>, <<"sid", 16>>,                     \* legacy_session_id
+              <<"ticket", 48>>, <<"ticket", 200>>}             \* session_ticket body
+CraftIDs(what) == CASE what = "gks" -> {id \in IDs : \E j \in DOMAIN Specs[id].exts : HasGreaseShare(Specs[id].exts[j])}
+                    [] what = "gext" -> {id \in IDs : HasExt(Specs[id], "UtlsGREASEExtension")}
+                    [] what = "gext2" -> {id \in IDs : Cardinality(ExtOf(Specs[id], "UtlsGREASEExtension")) = 2}
+                    [] what = "ticket" -> {id \in IDs : HasExt(Specs[id], "SessionTicketExtension")}
+                    [] OTHER -> IDs
 EchIDs == {id \in IDs : HasExt(Specs[id], "GREASEEncryptedClientHelloExtension")}
 
 \* ---- custom specs: mutants of dumped specs
@@ -85,6 +100,11 @@ Muts(id) ==
   \cup {[op |-> "swap", i |-> i, k |-> 0] : i \in {j \in 1..(Len(ds) - 1) : ~IsPsk(ds[j]) /\ ~IsPsk(ds[j+1])}}
   \cup {[op |-> "add", i |-> 0, k |-> k] : k \in {j \in DOMAIN Extras : ~(IsPsk(Extras[j]) /\ \E q \in DOMAIN ds : IsPsk(ds[q]))}}
   \cup UNION {{[op |-> "field", i |-> i, k |-> k] : k \in 1..Cardinality(Variants(ds[i].kind))} : i \in DOMAIN ds}
+  \* opaque fields whose length the sender chooses (RFC 8701): key_exchange of the GREASE key_share entry, body of the first
+  \* GREASE extension, body of the second one (ApplyPreset fills an EMPTY second body with BoringSSL's single 00)
+  \cup {[op |-> "gks", i |-> i, k |-> n] : i \in {j \in DOMAIN ds : HasGreaseShare(ds[j])}, n \in GreaseShareLens}
+  \cup {[op |-> "gbody", i |-> i, k |-> n] : i \in {j \in DOMAIN ds : IsGreaseExtD(ds[j]) /\ GreaseOrd(ds, j) = 1}, n \in GreaseBodyLens}
+  \cup {[op |-> "gbody2", i |-> i, k |-> n] : i \in {j \in DOMAIN ds : IsGreaseExtD(ds[j]) /\ GreaseOrd(ds, j) = 2}, n \in {2, 5}}
 
 \* a deterministic enumeration of a finite set of records (TLC sorts sets internally; any fixed order will do)
 RECURSIVE SetToSeq(_)
@@ -96,7 +116,9 @@ Mutate(id, m) ==
      CASE m.op = "drop" -> SubSeq(ds, 1, m.i - 1) \o SubSeq(ds, m.i + 1, Len(ds))
        [] m.op = "swap" -> [j \in DOMAIN ds |-> IF j = m.i THEN ds[m.i + 1] ELSE IF j = m.i + 1 THEN ds[m.i] ELSE ds[j]]
        [] m.op = "add" -> IF IsPsk(Extras[m.k]) THEN ds \o <<Extras[m.k]>> ELSE InsertAt(ds, FirstTail(ds), Extras[m.k])
-       [] m.op = "field" -> [ds EXCEPT ![m.i].f = SetToSeq(Variants(ds[m.i].kind))[m.k]]]
+       [] m.op = "field" -> [ds EXCEPT ![m.i].f = SetToSeq(Variants(ds[m.i].kind))[m.k]]
+       [] m.op = "gks" -> [ds EXCEPT ![m.i].f.KeyShares = [q \in DOMAIN @ |-> IF IsGrease16(@[q].Group) THEN [@[q] EXCEPT !.Data = Filler(m.k)] ELSE @[q]]]
+       [] m.op \in {"gbody", "gbody2"} -> [ds EXCEPT ![m.i].f.Body = Filler(m.k)]]
 
 CustomBases == IDs
 
@@ -105,6 +127,7 @@ Sources ==
   \cup {[kind |-> "randomized", id |-> id, k |-> k, m |-> [op |-> "", i |-> 0, k |-> 0], where |-> ""] : id \in RandomizedIDs, k \in 1..NSeeds}
   \cup UNION {{[kind |-> "custom", id |-> id, k |-> 0, m |-> m, where |-> ""] : m \in Muts(id)} : id \in CustomBases}
   \cup {[kind |-> "capture", id |-> id, k |-> p, m |-> [op |-> "", i |-> 0, k |-> 0], where |-> w] : id \in IDs, p \in PadLens, w \in PadWhere}
+  \cup UNION {{[kind |-> "craft", id |-> id, k |-> c[2], m |-> [op |-> c[1], i |-> 0, k |-> 0], where |-> ""] : id \in CraftIDs(c[1])} : c \in CraftLens}
   \cup {[kind |-> "echcapture", id |-> id, k |-> n, m |-> [op |-> "ech", i |-> pl, k |-> 0], where |-> ""] : id \in EchIDs, n \in EchEncLens, pl \in EchPayLens}
 
 GridInit == /\ mode = "grid"
